@@ -417,9 +417,30 @@ Fixpoint call_chain (f : pyfunc) (gs : list built) (c : call) : res binding :=
       end
   end.
 
+(* wrappers that forward only through the next [n] levels: those levels are entered
+   (their generated bodies run), the wrapper of the last one returns at once *)
+Fixpoint call_chain_n (gs : list built) (n : nat) (c : call) {struct n} : res binding :=
+  match n with
+  | O => Ok []
+  | S n' =>
+      match gs with
+      | [] => Raise OutOfDomain
+      | g :: below =>
+          match call_func (b_func g) c with
+          | Raise e => Raise e
+          | Ok env => match eval_inv (b_inv g) env with
+                      | Raise e => Raise e
+                      | Ok c' => call_chain_n below n' c'
+                      end
+          end
+      end
+  end.
+
 (* the outermost function of a stack called on a call shape: what the outermost
-   wrapper received and the outcome (see call_built) *)
-Definition call_top (f : pyfunc) (gs_outer_first : list built) (forward : bool) (c : call)
+   wrapper received and the outcome (see call_built).  [forward]: every wrapper
+   forwards, down to f; otherwise the wrappers of the top [partial] levels forward
+   (so [partial] further levels are entered) and the next one returns at once. *)
+Definition call_top (f : pyfunc) (gs_outer_first : list built) (forward : bool) (partial : nat) (c : call)
   : option call * res binding :=
   match gs_outer_first with
   | [] => (None, call_func f c)
@@ -429,7 +450,7 @@ Definition call_top (f : pyfunc) (gs_outer_first : list built) (forward : bool) 
       | Ok env =>
           match eval_inv (b_inv g) env with
           | Raise e => (None, Raise e)
-          | Ok c' => (Some c', if forward then call_chain f below c' else Ok [])
+          | Ok c' => (Some c', if forward then call_chain f below c' else call_chain_n below partial c')
           end
       end
   end.
